@@ -39,7 +39,45 @@ def cellsOfBytes (bytes : List UInt8) : List UInt32 :=
   (List.range (bytes.length / 4)).map fun k =>
     UInt32.ofNat ((bytes.getD (4 * k) 0).toNat + 256 * (bytes.getD (4 * k + 1) 0).toNat + 65536 * (bytes.getD (4 * k + 2) 0).toNat + 16777216 * (bytes.getD (4 * k + 3) 0).toNat)
 
+/-- several paints into one buffer: (statuses, final buffer) -/
+def blitSeq (width : Nat) : Nat → List (List Nat) → List UInt32 → List String → Option (List String × List UInt32)
+  | _, [], buf, acc => some (acc.reverse, buf)
+  | pi, [left, top, right, bottom, bw, bh, imgpix] :: rest, buf, acc =>
+    if imgpix < bw * bh then blitSeq width (pi + 1) rest buf ("E" :: acc)
+    else
+      let img := (List.range (bw * bh)).map fun k => UInt32.ofNat (0x1A000000 + pi * 1048576 + k)
+      let r := blit buf width ⟨left, top, right, bottom, bw⟩ img
+      blitSeq width (pi + 1) rest r.1.buf ((match r.2 with | .ok _ => "ok" | .err _ => "E" | .panic _ => "P") :: acc)
+  | _, _ :: _, _, _ => none
+
 def c19 (toks : List String) : String :=
+  if toks.head? = some "blitseq" then
+    match toks with
+    | _ :: w :: bl :: items =>
+      match w.toNat?, bl.toNat?, items.mapM (fun i => (i.splitOn ".").mapM String.toNat?) with
+      | some width, some buflen, some paints =>
+        match blitSeq width 0 paints ((List.range buflen).map bufCell) [] with
+        | some (res, buf) => ",".intercalate res ++ " " ++ showCellsHex buf ++ "\t-"
+        | none => "bad-case"
+      | _, _, _ => "bad-case"
+    | _ => "bad-case"
+  else
+  if toks.head? = some "blitd" then
+    match (toks.tail.take 9).mapM String.toNat?, (toks.getD 10 "").toList with
+    | some [width, buflen, left, top, right, bottom, bw, bh, bpp], _ =>
+      match ofHex (toks.getD 10 "-") with
+      | some d =>
+        let g : Geo := ⟨left, top, right, bottom, bw⟩
+        let buf := (List.range buflen).map bufCell
+        match Codec.decompress ⟨bw, bh, bpp, true, d.toArray⟩ with
+        | .ok bytes =>
+          let r := blit buf width g (cellsOfBytes bytes)
+          (match r.2 with | .ok _ => "ok " | .err _ => "E " | .panic _ => "P ") ++ showCellsHex r.1.buf ++ "\t-"
+        | .err _ => "E " ++ showCellsHex buf ++ "\t-"
+        | .panic _ => "P " ++ showCellsHex buf ++ "\t-"
+      | none => "bad-case"
+    | _, _ => "bad-case"
+  else
   if toks.head? = some "blit16" then
     match toks.tail.mapM String.toNat? with
     | some [width, buflen, left, top, right, bottom, bw, bh, npix] =>
